@@ -27,7 +27,7 @@ RULE = ('all path strings of 1..N segments (quick 3, thorough 4) over {x, ., ..,
 ASSUMPTIONS = [
     'existence probes (isfile/stat) are recorded but not judged; only open() is',
     'load-path patterns that themselves contain ".." are not generated (the user named that directory)',
-    'symlinks and Windows path rules are not driven',
+    'a directory link the user placed inside a root counts as part of the root; a path that reaches the OS with `..` components still in it is judged by where the OS resolves it (physically); backslashes are ordinary file-name characters on this platform',
     'in hostile mode an attempted open() of a non-existent outside path counts: only non-existence prevented the read',
 ]
 EXHAUSTIVE = {'quick': True, 'thorough': True}
@@ -60,6 +60,7 @@ def plan(tier, seed):
     for i in range(nsh):
         specs.append({'kind': 'enumerate', 'slice': [i, nsh], 'N': N, 'total': total})
     specs.append({'kind': 'absolute'})
+    specs.append({'kind': 'links'})
     specs.append({'kind': 'sequences', 'count': 2 if tier == 'quick' else 10})
     return specs
 
@@ -86,6 +87,10 @@ def make_universe():
                 data = rc.write_p8(regions, data, version=8)
             with open(p, 'wb') as fh:
                 fh.write(data)
+    # directory links inside the roots that lead out of them (`link/..` is the parent of the link's target)
+    for link, target in (('root/lnk', '../outside/sub'), ('root/sub/lnk2', '../../outside'),
+                         ('home/.lexaloffle/pico-8/carts/game/lnk', os.path.join(U, 'outside', 'lib'))):
+        os.symlink(target, os.path.join(U, link))
     # modules that exist only in directories a load path may add (never under root)
     for rel in ('abs/only_abs.lua', 'abs/lib/only_abslib.lua', 'abs/lib/only_abs.lua', 'outside/only_out.lua'):
         with open(os.path.join(U, rel), 'wb') as fh:
@@ -174,7 +179,9 @@ def run_include(ctx, U, s, ext, cfg, hostile):
         for mm in re.finditer(rb'marker\("([^"]*)"\)', loaded):
             src = os.path.join(U, mm.group(1).decode())
             ctx.monitor('spliced_files_located')
-            if not fsmon.inside(fsmon._norm(src), [fsmon._norm(r) for r in roots]):
+            # content reached through a directory link the user placed inside the root is the root's content
+            via_link = {os.path.realpath(p) for p, m in w.events if fsmon.inside(p, [fsmon._norm(r) for r in roots])}
+            if not fsmon.inside(fsmon._norm(src), [fsmon._norm(r) for r in roots]) and os.path.realpath(src) not in via_link:
                 ctx.violation('#include %s spliced the content of %s, outside the include root' % (s + ext, mm.group(1)), case,
                               key=classify_include(s, cfg, [(fsmon._norm(src), 'r')], roots))
                 return
@@ -183,17 +190,23 @@ def run_include(ctx, U, s, ext, cfg, hostile):
 LOAD_PATHS = ('default', 'rel_lib', 'q_lib', 'abs', 'env')
 
 
-def run_require(ctx, U, s, lp, hostile, form=None):
+def run_require(ctx, U, s, lp, hostile, form=None, literal=None):
+    """literal: the bytes to put between the quotes of the string literal when they are not simply s (escapes, raw high bytes);
+    s then only labels the case."""
     from pico8 import tool
     root = os.path.join(U, 'root')
     main = os.path.join(root, 'main_req.lua')
     out = os.path.join(root, 'out_req.p8')
-    if '"' in s or '\\' in s:
+    if literal is not None:
+        form = 'literal'
+    elif '"' in s or '\\' in s:
         return
     if form is None:
         form = ('paren', 'paren', 'paren', 'string_call', 'long_string_call', 'nested_string_call')[hash((s, lp)) % 6] if ']]' not in s and "'" not in s else 'paren'
     with open(main, 'wb') as fh:
-        if form == 'paren':
+        if form == 'literal':
+            fh.write(b'q=1\nrequire("' + literal + b'")\n')
+        elif form == 'paren':
             fh.write(b'q=1\nrequire("' + s.encode() + b'")\n')
         elif form == 'string_call':
             fh.write(b'q=1\nrequire "' + s.encode() + b'"\n')
@@ -322,6 +335,34 @@ def run_shard(spec, ctx):
                         run_include(ctx, U, s_, '.lua', 'carts2', hostile)
             ctx.feature('sequences_done')
             return
+        if spec['kind'] == 'links':
+            # (a) directory links before a `..`; (b) the other platform's separator; (c) bytes that a lossy decoding would drop
+            for hostile in (False, True):
+                for s_ in ('lnk/../x', 'lnk/../../outside/x', 'lnk/../sub/x', 'lnk/../lnk/../x', 'sub/lnk2/../x', 'sub/lnk2/../sub/x',
+                           'lnk/x', 'sub/lnk2/x', 'lnk/../../root/x', 'x/../lnk/../x'):
+                    for cfg in ('plain', 'subdir', 'carts'):
+                        run_include(ctx, U, s_, '.lua', cfg, hostile)
+                    run_include(ctx, U, s_, '.p8', 'plain', hostile)
+                    for lp in LOAD_PATHS:
+                        run_require(ctx, U, s_, lp, hostile, form='paren')
+                    ctx.feature('strings_through_directory_links')
+                for s_ in ('..\\x', '..\\..\\outside\\x', 'sub\\..\\..\\outside\\x', '.\\..\\x', '..\\/x', 'sub/..\\..\\x', '..\\sub\\x',
+                           '\\..\\x', 'x\\..\\..\\x', '..\\rootbar\\x'):
+                    for cfg in ('plain', 'subdir', 'carts', 'carts2'):
+                        run_include(ctx, U, s_, '.lua', cfg, hostile)
+                    run_include(ctx, U, s_, '.p8', 'plain', hostile)
+                    for lp in LOAD_PATHS:
+                        run_require(ctx, U, s_, lp, hostile, literal=s_.encode().replace(b'\\', b'\\\\'))
+                    ctx.feature('strings_with_backslash_separators')
+                for target in ('outside/x', 'outside/sub/x', 'rootbar/x'):
+                    ap = os.path.join(U, target).encode()
+                    for pre in (b'\xff', b'\xc3', b'\xe3\x81', b'\x80\x80', b'\\255', b'\\xff', b'\xff.', b'\xff/'):
+                        for lp in LOAD_PATHS:
+                            run_require(ctx, U, repr(pre + ap), lp, hostile, literal=pre + ap)
+                            run_require(ctx, U, repr(pre + b'../x'), lp, hostile, literal=pre + b'../x')
+                        ctx.feature('strings_with_undecodable_bytes')
+            ctx.feature('links_done')
+            return
         if spec['kind'] == 'absolute':
             for target in ('outside/x', 'outside/sub/x', 'rootbar/x', 'x', 'root/../outside/x', 'root/x'):
                 ap = os.path.join(U, target)
@@ -388,7 +429,7 @@ def gates(m, tier):
     N = 3 if tier == 'quick' else 4
     if f.get('strings_enumerated', 0) != len(strings(N)):
         missed.append('strings enumerated %d of %d' % (f.get('strings_enumerated', 0), len(strings(N))))
-    for k in ('sequences_done', 'failed_load_before_case', 'failed_build_before_case', 'include_cfg:subdir', 'absolute_paths_done', 'hostile', 'real_fs', 'include_cfg:plain', 'include_cfg:carts', 'include_cfg:carts2', 'include_rejected',
+    for k in ('links_done', 'strings_through_directory_links', 'strings_with_backslash_separators', 'strings_with_undecodable_bytes', 'sequences_done', 'failed_load_before_case', 'failed_build_before_case', 'include_cfg:subdir', 'absolute_paths_done', 'hostile', 'real_fs', 'include_cfg:plain', 'include_cfg:carts', 'include_cfg:carts2', 'include_rejected',
               'include_loaded', 'require_rejected', 'require_built') + tuple('load_path:' + l for l in LOAD_PATHS):
         if f.get(k, 0) < 1:
             missed.append('%s never seen' % k)
